@@ -421,6 +421,21 @@ impl<'a> Sim<'a> {
         let tick = self.config.tick;
         let mut is_finished = true;
 
+        // The simulation duration has already elapsed (an earlier run ended
+        // beyond it) and a client is still unfinished: it cannot finish in
+        // time any more, however quickly it completes.
+        if self.elapsed > self.config.duration
+            && self
+                .rts
+                .values()
+                .any(|rt| rt.is_client() && rt.is_software_running())
+        {
+            return Err(format!(
+                "Ran for duration: {:?} steps: {} without completing",
+                self.config.duration, self.steps,
+            ))?;
+        }
+
         // Tick the networking, processing messages. This is done before
         // ticking any other runtime, as they might be waiting on network
         // IO. (It also might be waiting on something else, such as time.)
